@@ -22,6 +22,8 @@ use std::time::Duration;
 enum MEv {
     Deliver(usize), // next undelivered request goes to worker w
     Step(usize),
+    /// a datagram that is not a request (zero-length, or a short runt) reaches worker w's socket
+    Junk(usize),
 }
 
 /// W servers from the same seed, K requests; event sequence decides delivery targets and steps.
@@ -41,6 +43,7 @@ fn multi_history(w: usize, reqs: &[Version], evs: &[MEv], bs: u8) -> Result<Opti
     let clients: Vec<Client> = reqs.iter().map(|_| Client::new()).collect();
     let mut delivered: Vec<(usize, Vec<u8>, Version)> = vec![]; // worker, request, version
     let mut next = 0;
+    let mut junk_n = 0usize;
     for e in evs {
         match *e {
             MEv::Deliver(t) => {
@@ -56,6 +59,11 @@ fn multi_history(w: usize, reqs: &[Version], evs: &[MEv], bs: u8) -> Result<Opti
                 if let Err(p) = srvs[t].step() {
                     return Ok(Some(("panic".into(), format!("worker {}: {}", t, p))));
                 }
+            }
+            MEv::Junk(t) => {
+                junk_n += 1;
+                let j = Client::new();
+                j.send(srvs[t].addr, if junk_n % 2 == 1 { &[][..] } else { &b"probe"[..] });
             }
         }
     }
@@ -190,6 +198,37 @@ pub fn run(ctx: &Ctx) -> Result<(), String> {
                 if let Some(e) = failed.lock().unwrap().take() {
                     return Err(e);
                 }
+            }
+        }
+    }
+
+    // part 1a': the same exploration one level shallower with datagrams that are not requests (a
+    // zero-length datagram, a 5-byte probe) arriving at either worker in between
+    {
+        let (w, k, depth) = (2usize, 2usize, ctx.tier.pick(5usize, 6));
+        let al: Vec<MEv> = (0..w).map(MEv::Deliver).chain((0..w).map(MEv::Step)).chain((0..w).map(MEv::Junk)).collect();
+        let reqs: Vec<Version> = (0..k).map(|i| if i % 2 == 0 { Version::Classic } else { Version::Ietf13 }).collect();
+        for bs in [1u8, 2] {
+            let n = al.len().pow(depth as u32);
+            par_for(n, 32, |mut idx, _| {
+                let mut evs = vec![];
+                for _ in 0..depth {
+                    evs.push(al[idx % al.len()]);
+                    idx /= al.len();
+                }
+                if !evs.iter().any(|e| matches!(e, MEv::Junk(_))) {
+                    return; // covered above
+                }
+                hist_n.fetch_add(1, Relaxed);
+                transitions.fetch_add(depth as u64 + w as u64 * 2, Relaxed);
+                match multi_history(w, &reqs, &evs, bs) {
+                    Err(e) => *failed.lock().unwrap() = Some(e),
+                    Ok(None) => {}
+                    Ok(Some((clause, msg))) => ctx.violation(&clause, "multi-worker", "in-process/with-non-request-datagrams", json!({"kind":"multi","workers":w,"requests":k,"batch_size":bs,"events":evs.iter().map(|e| format!("{:?}", e)).collect::<Vec<_>>(),"message":msg})),
+                }
+            });
+            if let Some(e) = failed.lock().unwrap().take() {
+                return Err(e);
             }
         }
     }
@@ -369,7 +408,7 @@ pub fn run(ctx: &Ctx) -> Result<(), String> {
     ctx.cov("caps_hit", json!(sched.caps_hit));
     ctx.cov("exhaustive", json!(sched.caps_hit.is_empty()));
     ctx.cov("bound", json!({"in_process": ctx.tier.pick("W=2,K=3,depth 6", "W=2,K=4,depth 8; W=3,K=3,depth 6"), "controlled": ctx.tier.pick("N=2,K=2, preemption bound 2, distributions up to worker symmetry", "N in {2,3}, K in {2,3}, every distribution up to worker symmetry, preemption bound 3/2/2/1, 90 s wall cap per scenario")}));
-    ctx.cov("rule", json!("(1) in-process: W real Server objects from one seed; all event sequences of the depth bound over {deliver(next request -> worker w), step(w)} (the harness plays the kernel's distribution), completed to quiescence: exactly one reply per request, from the worker it was delivered to, authentic for that request under the single long-term key, per-responder delegated keys stable and distinct; plus bursts larger than one event-loop call handles (e.g. 20 requests per worker at batch_size 1) spread over the workers and queued before the first step; and, with per-client statistics on, W workers sharing ONE statistics queue of capacity 2W: every assignment of R rounds (request, step, statistics hand-off) to the workers x every position of a single reporter pass (or none) — no hand-off fails or blocks, every request answered, every worker serves afterwards. (2) the real server process under the controlled scheduler: K requests whose source ports are chosen through the learned port->worker map to realise each distribution; schedules over the hook points (loop_top, polled, collected, sent, flag_check of each worker, environment sends) explored with iterative preemption bounding; same oracle plus no thread exit/panic and every worker back at loop_top; and scenarios in which the requests may arrive EARLY (as soon as every worker's socket is bound, before a worker has built its Server). (3) sampled: free-running binary with 64 concurrent closed-loop reference clients (quick: 15 rounds, num_workers {4,16}; thorough: 60 rounds, {1,2,4,8,16}); a failure observed there is a real failing execution, its absence is not a proof."));
+    ctx.cov("rule", json!("(1) in-process: W real Server objects from one seed; all event sequences of the depth bound over {deliver(next request -> worker w), step(w)} (the harness plays the kernel's distribution; a second, shallower exploration adds datagrams that are not requests — zero-length, a 5-byte probe — arriving at either worker), completed to quiescence: exactly one reply per request, from the worker it was delivered to, authentic for that request under the single long-term key, per-responder delegated keys stable and distinct; plus bursts larger than one event-loop call handles (e.g. 20 requests per worker at batch_size 1) spread over the workers and queued before the first step; and, with per-client statistics on, W workers sharing ONE statistics queue of capacity 2W: every assignment of R rounds (request, step, statistics hand-off) to the workers x every position of a single reporter pass (or none) — no hand-off fails or blocks, every request answered, every worker serves afterwards. (2) the real server process under the controlled scheduler: K requests whose source ports are chosen through the learned port->worker map to realise each distribution; schedules over the hook points (loop_top, polled, collected, sent, flag_check of each worker, environment sends) explored with iterative preemption bounding; same oracle plus no thread exit/panic and every worker back at loop_top; and scenarios in which the requests may arrive EARLY (as soon as every worker's socket is bound, before a worker has built its Server). (3) sampled: free-running binary with 64 concurrent closed-loop reference clients (quick: 15 rounds, num_workers {4,16}; thorough: 60 rounds, {1,2,4,8,16}); a failure observed there is a real failing execution, its absence is not a proof."));
     ctx.sample(json!({"kind":"multi","workers":2,"events":["Deliver(0)","Deliver(1)","Step(1)","Deliver(0)","Step(0)"]}));
     ctx.sample(json!({"kind":"schedule","scenario":"load-n2-k2-dist[0, 1]","schedule":["env:send(c3,C)","worker-0@loop_top(0)","env:send(c0,I)","worker-1@loop_top(0)","worker-0@polled(1)"]}));
     ctx.assume("interleavings are explored at hook granularity; all cross-thread communication of the server goes through hooked operations or kernel sockets (static audit: no static mut / unsafe / shared Mutex besides the config lock, the KEEP_RUNNING flag and the stats queue)");
@@ -389,7 +428,7 @@ pub fn replay_case(c: &Value) -> Result<Option<String>, String> {
             let evs: Vec<MEv> = c["events"].as_array().ok_or("events")?.iter().filter_map(|e| {
                 let s = e.as_str()?;
                 let n: usize = s.trim_end_matches(')').split('(').nth(1)?.parse().ok()?;
-                Some(if s.starts_with("Deliver") { MEv::Deliver(n) } else { MEv::Step(n) })
+                Some(if s.starts_with("Deliver") { MEv::Deliver(n) } else if s.starts_with("Junk") { MEv::Junk(n) } else { MEv::Step(n) })
             }).collect();
             let r = crate::util::on_named_thread("worker-0", || multi_history(w, &reqs, &evs, bs))?;
             Ok(r.map(|(a, b)| format!("{} {}", a, b)))
